@@ -280,6 +280,12 @@ class DynMixin(object):
                 yield s, BuiltinV("dyn.dict." + name, self_val=o)
             elif kind == "D" and name in MUTATORS:
                 yield s, BuiltinV("dyn.mutator", self_val=o)
+            elif kind == "N":
+                yield self.raise_(s, "AttributeError", "'NoneType' object has no attribute '%s'" % name)
+            elif kind in ("num", "T"):
+                if name in ("real", "imag", "numerator", "denominator", "is_integer", "bit_length", "conjugate", "__name__"):
+                    raise Unsupported("attribute %s of a number/type is not modelled" % name)
+                yield self.raise_(s, "AttributeError", "object has no attribute '%s'" % name)
             else:
                 yield self.raise_(s, "AttributeError", "object has no attribute '%s'" % name)
 
